@@ -3,6 +3,7 @@
 package backend
 
 import (
+	"context"
 	"sync"
 
 	"github.com/kubewharf/kubebrain/pkg/backend/tso"
@@ -57,6 +58,8 @@ func VerifC04Resolve() {
 	w.history()
 	w.s.OnBegin = func(ops []zzmodel.Op) {
 		if r := w.opRev(ops); r != 0 {
+			// a storage transaction that only starts now has not finished either
+			zzverif.Assert(r > w.b.GetCurrentRevision(), "the readable revision never reaches a write whose storage transaction has not finished")
 			open = append(open, r)
 		}
 	}
@@ -88,6 +91,15 @@ func VerifC04Resolve() {
 	for i := range reqs {
 		reqs[i] = w.newReq("c" + string(rune('0'+i)))
 	}
+	// a client may go away (or its deadline may pass) at any moment of its request
+	var cancels []context.CancelFunc
+	if zzverif.Param("cancels", 0) == 1 {
+		for _, r := range reqs {
+			ctx, cancel := context.WithCancel(vCtx())
+			r.ctx = ctx
+			cancels = append(cancels, cancel)
+		}
+	}
 	var wg sync.WaitGroup
 	wg.Add(n)
 	zzverif.ExploreSchedules(zzverif.Param("preempt", 1))
@@ -98,6 +110,15 @@ func VerifC04Resolve() {
 		r := reqs[i]
 		zzverif.Go("c"+string(rune('0'+i)), func() {
 			w.issue(r)
+			wg.Done()
+		})
+	}
+	if len(cancels) > 0 {
+		who := zzverif.Choose("cancelWho", n)
+		wg.Add(1)
+		zzverif.Go("canceller", func() {
+			cancels[who]()
+			zzverif.Cover("client-gone")
 			wg.Done()
 		})
 	}
